@@ -409,17 +409,93 @@ pub fn ref_u8_doc(s: &[u8]) -> Option<u8> {
 }
 
 #[derive(Clone, Copy, PartialEq, Debug)]
-enum Got {
-    Val(u8),
+pub enum Got<M> {
+    Val(M),
     DecodeErr,
     Eof,
     Other,
     Pending,
 }
 
-fn recv_u8(conn: &mut ReadConnection<ScriptRead>) -> Got {
+/// A message type for layer 2 together with its reference: what decoding one frame (no NUL
+/// inside) as this type must yield.
+pub trait RefDoc: for<'de> serde::Deserialize<'de> + core::fmt::Debug + PartialEq + Copy {
+    fn reference(frame: &[u8]) -> Option<Self>;
+}
+
+impl RefDoc for u8 {
+    fn reference(frame: &[u8]) -> Option<u8> {
+        ref_u8_doc(frame)
+    }
+}
+
+/// Decoder that takes nothing from the document: `serde_json::from_slice::<Skip>` succeeds iff the
+/// frame consists of JSON whitespace only (serde_json's end-of-input check), and fails with a
+/// JSON error on any other byte. It keeps serde_json's value parsers (the cost that made the `u8`
+/// variant undecidable: number parsing falls into the f64 path) out of the formula while the slice
+/// handed to the decoder stays observable through the verdict: with arbitrary frame bytes, a slice
+/// that is one byte too long or too short changes the verdict for some assignment.
+#[derive(Debug, PartialEq, Clone, Copy)]
+pub struct Skip;
+impl<'de> serde::Deserialize<'de> for Skip {
+    fn deserialize<D: serde::Deserializer<'de>>(_d: D) -> Result<Self, D::Error> {
+        Ok(Skip)
+    }
+}
+
+impl RefDoc for Skip {
+    fn reference(frame: &[u8]) -> Option<Skip> {
+        let mut i = 0;
+        let mut all_ws = true;
+        while i < frame.len() {
+            if !matches!(frame[i], b' ' | b'\t' | b'\n' | b'\r') {
+                all_ws = false;
+            }
+            i += 1;
+        }
+        if all_ws { Some(Skip) } else { None }
+    }
+}
+
+/// Decoder for the JSON literal `null` (serde_json's `deserialize_unit`), the cheapest decoder
+/// that consumes a real value: `ws* null ws*`.
+#[derive(Debug, PartialEq, Clone, Copy)]
+pub struct Null;
+impl<'de> serde::Deserialize<'de> for Null {
+    fn deserialize<D: serde::Deserializer<'de>>(d: D) -> Result<Self, D::Error> {
+        <()>::deserialize(d).map(|_| Null)
+    }
+}
+
+impl RefDoc for Null {
+    fn reference(frame: &[u8]) -> Option<Null> {
+        let ws = |b: u8| matches!(b, b' ' | b'\t' | b'\n' | b'\r');
+        let mut i = 0;
+        while i < frame.len() && ws(frame[i]) {
+            i += 1;
+        }
+        if i + 4 > frame.len() || &frame[i..i + 4] != b"null" {
+            return None;
+        }
+        i += 4;
+        while i < frame.len() && ws(frame[i]) {
+            i += 1;
+        }
+        if i == frame.len() { Some(Null) } else { None }
+    }
+}
+
+fn recv_u8(conn: &mut ReadConnection<ScriptRead>) -> Got<u8> {
+    recv::<u8>(conn)
+}
+
+fn recv<M: RefDoc>(conn: &mut ReadConnection<ScriptRead>) -> Got<M> {
+    recv_on::<M, ScriptRead>(conn)
+}
+
+fn recv_on<M: RefDoc, R: zlink_core::connection::socket::ReadHalf>(conn: &mut ReadConnection<R>) -> Got<M> {
     let r = {
-        let fut = conn.verif_read_message::<u8>();
+        let fut = conn.verif_read_message::<M>();
         let mut fut = core::pin::pin!(fut);
         poll_once(fut.as_mut())
     };
@@ -442,7 +518,7 @@ fn recv_u8(conn: &mut ReadConnection<ScriptRead>) -> Got {
 /// delivered in one read (CUT = 0) or cut into two reads after CUT bytes, then end of stream.
 /// Three receives must yield: the verdict on F1, the verdict on F2 — each what the reference
 /// says about that frame alone — and end of stream.
-pub fn recv_frames<const N1: usize, const N2: usize, const CUT: usize>(nd: &mut Nd) {
+pub fn recv_frames<M: RefDoc, const N1: usize, const N2: usize, const CUT: usize>(nd: &mut Nd) {
     let total = N1 + N2 + 2;
     let mut stream = [0u8; CHUNK];
     let mut i = 0;
@@ -472,17 +548,17 @@ pub fn recv_frames<const N1: usize, const N2: usize, const CUT: usize>(nd: &mut 
     }
     crate::sock::set_read_poll_limit(nsteps + 1);
     let mut conn = ReadConnection::verif_from_parts(ScriptRead::new(&steps, nsteps), vec![0u8; STEP], 0, 0, 3);
-    let e1 = ref_u8_doc(&stream[..N1]);
-    let e2 = ref_u8_doc(&stream[N1 + 1..N1 + 1 + N2]);
-    let want = |e: Option<u8>| match e {
+    let e1 = M::reference(&stream[..N1]);
+    let e2 = M::reference(&stream[N1 + 1..N1 + 1 + N2]);
+    let want = |e: Option<M>| match e {
         Some(v) => Got::Val(v),
         None => Got::DecodeErr,
     };
-    let g1 = recv_u8(&mut conn);
+    let g1 = recv::<M>(&mut conn);
     assert!(g1 == want(e1), "C01.first_frame_yields_its_own_result");
-    let g2 = recv_u8(&mut conn);
+    let g2 = recv::<M>(&mut conn);
     assert!(g2 == want(e2), "C01.second_frame_unaffected_by_the_first");
-    let g3 = recv_u8(&mut conn);
+    let g3 = recv::<M>(&mut conn);
     assert!(g3 == Got::Eof, "C01.end_of_stream_after_all_frames");
     cover!(nd, e1.is_none() && e2.is_some(), "bad frame followed by a good one");
     if N1 >= 2 {
@@ -553,11 +629,11 @@ pub fn read_probe2<const V: usize>(nd: &mut Nd) {
 /// buffered behind one consumed byte, followed by the sentinel NUL — the state layer 1 shows
 /// `read_from_socket` leaves behind. Two receives must yield each frame's own verdict, and the
 /// cursors must then be reset (everything consumed, nothing else touched).
-pub fn recv_buffered<const N1: usize, const N2: usize>(nd: &mut Nd) {
+pub fn recv_buffered<M: RefDoc, const N1: usize, const N2: usize>(nd: &mut Nd) {
     let mut buffer = vec![0u8; 2 * STEP];
     buffer[0] = b'X';
-    let mut f1 = [0u8; 4];
-    let mut f2 = [0u8; 4];
+    let mut f1 = [0u8; 8];
+    let mut f2 = [0u8; 8];
     let mut i = 0;
     while i < N1 {
         let b = nd.u8();
@@ -577,19 +653,19 @@ pub fn recv_buffered<const N1: usize, const N2: usize>(nd: &mut Nd) {
     let read_pos = 1 + N1 + 1 + N2 + 1;
     crate::sock::set_read_poll_limit(1);
     let mut conn = ReadConnection::verif_from_parts(ScriptRead::idle(), buffer, read_pos, 1, 3);
-    let e1 = ref_u8_doc(&f1[..N1]);
-    let e2 = ref_u8_doc(&f2[..N2]);
-    let want = |e: Option<u8>| match e {
+    let e1 = M::reference(&f1[..N1]);
+    let e2 = M::reference(&f2[..N2]);
+    let want = |e: Option<M>| match e {
         Some(v) => Got::Val(v),
         None => Got::DecodeErr,
     };
-    let g1 = recv_u8(&mut conn);
+    let g1 = recv::<M>(&mut conn);
     assert!(g1 == want(e1), "C01.first_frame_yields_its_own_result");
     {
         let (_, rp, mp) = conn.verif_parts();
         assert!(rp == read_pos && mp == 2 + N1, "C01.a_frame_consumes_exactly_itself");
     }
-    let g2 = recv_u8(&mut conn);
+    let g2 = recv::<M>(&mut conn);
     assert!(g2 == want(e2), "C01.second_frame_unaffected_by_the_first");
     {
         let (_, rp, mp) = conn.verif_parts();
@@ -600,5 +676,242 @@ pub fn recv_buffered<const N1: usize, const N2: usize>(nd: &mut Nd) {
     if N1 >= 2 {
         cover!(nd, e1.is_some() && f1[N1 - 1] == b' ', "padded frame followed by another");
     }
+    core::mem::forget(conn);
+}
+
+/// Development probes: cost of the depth-2 nest `read_message -> read_from_socket` by decoder.
+pub fn rm_probe<const V: usize>(nd: &mut Nd) {
+    let mut buffer = vec![0u8; 2 * STEP];
+    buffer[0] = b'X';
+    buffer[1] = nd.u8();
+    buffer[2] = nd.u8();
+    nd.assume(buffer[1] != 0 && buffer[2] != 0);
+    // X f f 0 0
+    crate::sock::set_read_poll_limit(1);
+    let mut conn = ReadConnection::verif_from_parts(ScriptRead::idle(), buffer, 4, 1, 3);
+    if V == 2 {
+        // is a constant first byte still a constant for serde_json's dispatch? (C11 feasibility)
+        let mut b2 = vec![0u8; 2 * STEP];
+        b2[0] = b'X';
+        b2[1] = b'"';
+        b2[2] = nd.alnum();
+        b2[3] = b'"';
+        let mut c2 = ReadConnection::verif_from_parts(ScriptRead::idle(), b2, 5, 1, 3);
+        let r = {
+            let fut = c2.verif_read_message::<crate::p11::Raw<'_>>();
+            let mut fut = core::pin::pin!(fut);
+            poll_once(fut.as_mut())
+        };
+        let ok = matches!(r, Poll::Ready(Ok(_)));
+        core::mem::forget(r);
+        assert!(ok, "X.raw_ok");
+        core::mem::forget(c2);
+    } else if V == 0 {
+        let r = {
+            let fut = conn.verif_read_message::<Skip>();
+            let mut fut = core::pin::pin!(fut);
+            poll_once(fut.as_mut())
+        };
+        let ok = matches!(r, Poll::Ready(Ok(_)));
+        core::mem::forget(r);
+        let (b, rp, mp) = conn.verif_parts();
+        let ws = |x: u8| matches!(x, b' ' | b'\t' | b'\n' | b'\r');
+        assert!(ok == (ws(b[1]) && ws(b[2])), "X.skip_verdict");
+        assert!(rp == 0 && mp == 0, "X.cursors");
+    } else {
+        let g = recv_u8(&mut conn);
+        let (_, rp, mp) = conn.verif_parts();
+        assert!(rp == 0 && mp == 0, "X.cursors");
+        assert!(g != Got::Pending, "X.ready");
+    }
+    core::mem::forget(conn);
+}
+
+/// Layer 2, one inductive step: a connection whose buffer already holds a complete frame at
+/// `msg_pos = MP >= 1` (N1 arbitrary non-NUL bytes, then NUL), followed either by the sentinel
+/// (MORE = 0: it is the last buffered frame) or by MORE further arbitrary non-NUL bytes, a NUL and
+/// the sentinel (another frame is buffered behind it). One receive must: not touch the transport,
+/// yield what the reference says about exactly those N1 bytes, leave every buffered byte intact,
+/// and move the cursors exactly past the frame (or reset them after the last frame).
+pub fn recv_step<M: RefDoc, const MP: usize, const N1: usize, const MORE: usize>(nd: &mut Nd) {
+    let read_pos = if MORE == 0 { MP + N1 + 1 } else { MP + N1 + 1 + MORE + 1 };
+    // smallest whole number of growth steps that holds the data and the sentinel
+    let len = (read_pos + 1 + STEP - 1) / STEP * STEP;
+    let mut buffer = vec![0u8; len];
+    let mut i = 0;
+    while i < MP {
+        buffer[i] = b'X';       // consumed earlier (anything but a cursor-relevant byte pattern)
+        i += 1;
+    }
+    buffer[MP - 1] = 0;         // terminator of the previously consumed frame
+    let mut f1 = [0u8; 8];
+    let mut i = 0;
+    while i < N1 {
+        let b = nd.u8();
+        nd.assume(b != 0);
+        f1[i] = b;
+        buffer[MP + i] = b;
+        i += 1;
+    }
+    let mut i = 0;
+    while i < MORE {
+        let b = nd.u8();
+        nd.assume(b != 0);
+        buffer[MP + N1 + 1 + i] = b;
+        i += 1;
+    }
+    let mut before = [0u8; 24];
+    before[..len].copy_from_slice(&buffer[..len]);
+    crate::sock::set_read_poll_limit(1);
+    let mut conn = ReadConnection::verif_from_parts(ScriptRead::idle(), buffer, read_pos, MP, 3);
+    let e1 = M::reference(&f1[..N1]);
+    let g1 = recv::<M>(&mut conn);
+    let want = match e1 {
+        Some(v) => Got::Val(v),
+        None => Got::DecodeErr,
+    };
+    assert!(g1 == want, "C01.first_frame_yields_its_own_result");
+    {
+        let (buf, rp, mp) = conn.verif_parts();
+        if MORE == 0 {
+            assert!(rp == 0 && mp == 0, "C01.cursors_reset_after_the_last_buffered_frame");
+        } else {
+            assert!(rp == read_pos && mp == MP + N1 + 1, "C01.a_frame_consumes_exactly_itself");
+        }
+        assert!(buf.len() == len, "C01.buffer_size_unchanged_by_a_buffered_receive");
+        let mut same = true;
+        let mut k = 0;
+        while k < len {
+            if buf[k] != before[k] {
+                same = false;
+            }
+            k += 1;
+        }
+        assert!(same, "C01.buffered_bytes_intact");
+    }
+    assert!(conn.read_half().calls == 0, "C01.buffered_frames_served_before_reading");
+    cover!(nd, e1.is_none(), "frame that fails to decode");
+    cover!(nd, e1.is_some(), "frame that decodes");
+    core::mem::forget(conn);
+}
+
+/// Layers 1 and 2 in one call: a fresh connection (nothing buffered) whose transport delivers, in
+/// one read, a frame of N1 arbitrary non-NUL bytes and its NUL, optionally followed by MORE further
+/// non-NUL bytes and a NUL (a second frame in the same burst). One receive yields the first
+/// frame's own verdict and leaves the cursors exactly past it (or reset when nothing else is
+/// buffered).
+pub fn recv_fresh<M: RefDoc, const N1: usize, const MORE: usize>(nd: &mut Nd) {
+    let total = if MORE == 0 { N1 + 1 } else { N1 + 1 + MORE + 1 };
+    let mut stream = [0u8; CHUNK];
+    let mut i = 0;
+    while i < N1 {
+        let b = nd.u8();
+        nd.assume(b != 0);
+        stream[i] = b;
+        i += 1;
+    }
+    let mut i = 0;
+    while i < MORE {
+        let b = nd.u8();
+        nd.assume(b != 0);
+        stream[N1 + 1 + i] = b;
+        i += 1;
+    }
+    crate::sock::set_read_poll_limit(1);
+    let sock = crate::sock::BurstRead { bytes: &stream, n: total, reads: 0, calls: 0 };
+    let mut conn = ReadConnection::verif_from_parts(sock, vec![0x55u8; STEP], 0, 0, 3);
+    let e1 = M::reference(&stream[..N1]);
+    let g1 = recv_on::<M, _>(&mut conn);
+    let want = match e1 {
+        Some(v) => Got::Val(v),
+        None => Got::DecodeErr,
+    };
+    assert!(g1 == want, "C01.first_frame_yields_its_own_result");
+    let (buf, rp, mp) = conn.verif_parts();
+    if MORE == 0 {
+        assert!(rp == 0 && mp == 0, "C01.cursors_reset_after_the_last_buffered_frame");
+    } else {
+        assert!(rp == total && mp == N1 + 1, "C01.a_frame_consumes_exactly_itself");
+    }
+    let mut same = true;
+    let mut k = 0;
+    while k < total {
+        if buf[k] != stream[k] {
+            same = false;
+        }
+        k += 1;
+    }
+    assert!(same, "C01.buffered_bytes_intact");
+    assert!(conn.read_half().reads == 1, "C01.one_transport_read_for_a_complete_burst");
+    cover!(nd, e1.is_none(), "frame that fails to decode");
+    cover!(nd, e1.is_some(), "frame that decodes");
+    core::mem::forget(conn);
+}
+
+/// A receive that resumes after an abandoned one (C07 at the level of `read_message`): RP bytes
+/// are already buffered with `msg_pos == 0` - arbitrary bytes, possibly containing complete frames,
+/// the last one not NUL (the state the transport half is shown to leave behind when a receive is
+/// dropped while the read is pending). The transport then delivers N more arbitrary bytes ending
+/// in NUL. The receive must take those bytes in, yield the verdict of the *first* frame of the
+/// concatenation (bytes up to the first NUL) and put the message cursor right behind it.
+pub fn recv_resume<M: RefDoc, const RP: usize, const N: usize>(nd: &mut Nd) {
+    let mut all = [0u8; 2 * CHUNK];
+    let mut i = 0;
+    while i < RP + N {
+        all[i] = nd.u8();
+        i += 1;
+    }
+    nd.assume(all[RP - 1] != 0);
+    nd.assume(all[RP + N - 1] == 0);
+    nd.assume(all[0] != 0);                 // frames are non-empty
+    let mut chunk = [0u8; CHUNK];
+    let mut i = 0;
+    while i < N {
+        chunk[i] = all[RP + i];
+        i += 1;
+    }
+    let total = RP + N;
+    let len = (total + 1 + STEP - 1) / STEP * STEP;
+    let start_len = (RP + 1 + STEP - 1) / STEP * STEP;
+    let mut buffer = vec![0x55u8; start_len];
+    let mut i = 0;
+    while i < RP {
+        buffer[i] = all[i];
+        i += 1;
+    }
+    buffer[RP] = 0; // sentinel planted by the abandoned receive
+    // (the burst fits the space offered: the one-burst transport model does not keep a remainder)
+    assert!(N <= start_len - RP, "harness instance: burst must fit the free space");
+    crate::sock::set_read_poll_limit(1);
+    let sock = crate::sock::BurstRead { bytes: &chunk, n: N, reads: 0, calls: 0 };
+    let mut conn = ReadConnection::verif_from_parts(sock, buffer, RP, 0, 3);
+    // first NUL of the concatenation
+    let mut first = total;
+    let mut k = 2 * CHUNK;
+    while k > 0 {
+        k -= 1;
+        if k < total && all[k] == 0 {
+            first = k;
+        }
+    }
+    let e1 = M::reference(&all[..first]);
+    let g1 = recv_on::<M, _>(&mut conn);
+    let want = match e1 {
+        Some(v) => Got::Val(v),
+        None => Got::DecodeErr,
+    };
+    assert!(g1 == want, "C07.resumed_receive_yields_the_first_complete_frame");
+    let (buf, rp, mp) = conn.verif_parts();
+    assert!(buf.len() == len || buf.len() == start_len, "C01.buffer_grows_by_whole_steps");
+    // Empty frames (two adjacent NULs) would be read as the end-of-data sentinel; the property speaks
+    // of non-empty frames only.
+    if first + 1 == total {
+        assert!(rp == 0 && mp == 0, "C01.cursors_reset_after_the_last_buffered_frame");
+    } else if all[first + 1] != 0 {
+        assert!(rp == total && mp == first + 1, "C07.nothing_taken_in_before_the_drop_is_lost");
+    }
+    assert!(conn.read_half().reads == 1, "C07.resumed_receive_reads_the_rest_of_the_burst");
+    cover!(nd, first < RP, "a complete frame was already buffered when the receive was abandoned");
+    cover!(nd, first + 1 == total, "the abandoned receive held only part of one frame");
     core::mem::forget(conn);
 }
